@@ -446,6 +446,14 @@ impl Default for UistBrokerLog {
     }
 }
 
+#[cfg(feature = "verif")]
+impl<C: UistClient> UistBroker<C> {
+    /// Read-only access to the broker's client for the verification harness.
+    pub fn verif_client(&self) -> &C {
+        &self.http_client
+    }
+}
+
 #[cfg(test)]
 mod tests {
 
